@@ -18,6 +18,34 @@ SIZES_QUICK = ["0 B", "1 B", "1.5 GiB", "1e+03 MiB", "1.02e+03 MiB", "10 B"]
 TAGS = ["launch", "launch_2-0", "launch3.0", "a.b-c_d", "0", "b0"]
 
 
+def size_to_str(val):
+    """Port of qemu's util/cutils.c:size_to_str (what `qemu-img snapshot -l` prints in the VM SIZE column)."""
+    import math
+
+    suffixes = ["", "Ki", "Mi", "Gi", "Ti", "Pi", "Ei"]
+    _, i = math.frexp(val / (1000.0 / 1024))
+    i = int((i - 1) / 10)  # C integer division truncates toward zero
+    div = 1 << (i * 10)
+    return "%0.3g %sB" % (val / div, suffixes[i])
+
+
+def qemu_sizes(tier):
+    """Renderings of vm-state sizes over a systematic range of byte counts: every unit, both sides of every rounding / unit switch."""
+    mantissas = [1, 1.5, 2, 9.99, 10, 12.3, 99.9, 100, 123, 512, 999, 999.4, 999.5, 1000, 1001, 1010, 1023, 1023.9]
+    if tier == "quick":
+        mantissas = [1, 1.5, 9.99, 10, 100, 512, 999, 999.5, 1000, 1010, 1023]
+    vals = {0}
+    for e in range(0, 5):
+        for m in mantissas:
+            vals.add(int(m * 1024 ** e))
+    out = []
+    for v in sorted(vals):
+        sz = size_to_str(v)
+        if sz not in out:
+            out.append(sz)
+    return out
+
+
 def listing(entries, header=True):
     """qemu-img snapshot -l output for [(tag, vm_size)] (format of qemu's bdrv_snapshot_dump)."""
     out = "Snapshot list:\nID        TAG               VM SIZE                DATE     VM CLOCK     ICOUNT\n" if header else ""
@@ -164,7 +192,16 @@ def run(tier: str, seed: int) -> int:
         def snapshot_list(self, force_share=True):
             return listing(current)
 
+    rendered = qemu_sizes(tier)
+    rep.sections["rendered_sizes"] = len(rendered)
+
     def listings():
+        # every rendered size alone and in both positions next to every other one (two fixed tags)
+        for sz in rendered:
+            for t in TAGS[:3]:
+                yield [(t, sz)]
+        for a, b in itertools.product(rendered, repeat=2):
+            yield [("launch", a), ("b0", b)]
         # every single entry, every ordered pair with distinct tags, and (thorough) triples with distinct tags
         for e in entries_alphabet:
             yield [e]
